@@ -118,11 +118,15 @@ func rulePREC1(c *Ctx) {
 			return false
 		}
 		b, ok := ast.Unparen(is.Cond).(*ast.BinaryExpr)
-		if !ok || b.Op != token.LSS {
+		if !ok {
 			return false
 		}
-		_, lok := ast.Unparen(b.X).(*ast.Ident)
-		rid, rok := ast.Unparen(b.Y).(*ast.Ident)
+		op, bx, by := lessForm(b)
+		if op != token.LSS {
+			return false
+		}
+		_, lok := ast.Unparen(bx).(*ast.Ident)
+		rid, rok := ast.Unparen(by).(*ast.Ident)
 		if !lok || !rok {
 			return false
 		}
